@@ -25,6 +25,50 @@ def history_rng(base_seed, prop, i):
 # execution (runs inside the forked child; the only place the SUT is called)
 # ---------------------------------------------------------------------------
 
+class SimCancel(BaseException):
+    """Injected by the simulator into a translation call at a chosen step: the caller's
+    Ctrl-C, a signal-based time-out, a cancelled job.  Not an Exception, so that no
+    ``except Exception`` inside the library can swallow it."""
+
+
+_CANCEL_TOOL = 4
+
+
+def _cancellable(sf, at, fn, *a, **kw):
+    """Run fn(*a, **kw); at the ``at``-th line event inside the selfies package raise
+    SimCancel at that point (sys.monitoring callbacks propagate their exceptions into the
+    monitored code).  -> outcome tuple; ('err', 'SimCancel', 'func:line', None) if it fired."""
+    import os
+    import sys
+    mon = sys.monitoring
+    root = os.path.dirname(os.path.abspath(sf.__file__)) + os.sep
+    st = {"n": 0, "fired": None}
+
+    def on_line(code, line):
+        if not code.co_filename.startswith(root):
+            return mon.DISABLE
+        st["n"] += 1
+        if st["n"] == at:
+            st["fired"] = "%s:%d" % (code.co_name, line)
+            raise SimCancel()
+
+    mon.use_tool_id(_CANCEL_TOOL, "verif-cancel")
+    try:
+        mon.register_callback(_CANCEL_TOOL, mon.events.LINE, on_line)
+        mon.set_events(_CANCEL_TOOL, mon.events.LINE)
+        try:
+            o = outcome(fn, *a, **kw)
+        except SimCancel:
+            o = ("err", "SimCancel", st["fired"], None)
+        finally:
+            mon.set_events(_CANCEL_TOOL, 0)
+    finally:
+        mon.register_callback(_CANCEL_TOOL, mon.events.LINE, None)
+        mon.free_tool_id(_CANCEL_TOOL)
+        mon.restart_events()
+    return o
+
+
 def _passive(sf):
     g = outcome(sf.get_semantic_constraints)
     ps = tuple(outcome(sf.get_preset_constraints, n)[:2] for n in PRESET_NAMES)
@@ -371,11 +415,17 @@ def _execute_one(sf, op, pos, H, passive):
             H[idx] = o[3]
             rec["r"] = o[:3]
         elif k == "decode":
-            o = outcome(sf.decoder, op["x"], compatible=op["compatible"], attribute=op["attribute"])
+            if op.get("cancel"):
+                o = _cancellable(sf, op["cancel"], sf.decoder, op["x"], compatible=op["compatible"], attribute=op["attribute"])
+            else:
+                o = outcome(sf.decoder, op["x"], compatible=op["compatible"], attribute=op["attribute"])
             H[idx] = o[3]
             rec["r"] = o[:3]
         elif k == "encode":
-            o = outcome(sf.encoder, op["s"], strict=op["strict"], attribute=op["attribute"])
+            if op.get("cancel"):
+                o = _cancellable(sf, op["cancel"], sf.encoder, op["s"], strict=op["strict"], attribute=op["attribute"])
+            else:
+                o = outcome(sf.encoder, op["s"], strict=op["strict"], attribute=op["attribute"])
             H[idx] = o[3]
             rec["r"] = o[:3]
         elif k == "mutate":
@@ -620,7 +670,15 @@ class Verifier:
                 if r[1]:
                     probe("fault_mutate:" + by_id.get(op["h"], "?") + ":" + op["how"])
                     last_fault = idx
+            elif k in ("decode", "encode") and r[:2] == ("err", "SimCancel"):
+                # the call was cancelled by the simulator at an arbitrary step: nothing is
+                # demanded of this call, everything of the calls that follow it
+                probe("fault_cancelled_call:" + k)
+                last_fault = idx
+                since_change += 1
             elif k == "decode":
+                if op.get("cancel"):
+                    probe("cancel_not_reached")
                 if model.known:
                     call = ("decode", op["x"], op["compatible"], op["attribute"])
                     want = ask(model.src, call)
